@@ -355,6 +355,40 @@ var baselineLocals map[string][]localSig
 var baselineLocalsLoaded bool
 
 func (ex *Exec) renamedLocal(fr *Frame, name string) *ssa.Alloc {
+	if fr != nil && !fr.isTop && fr.adoptsLoops && ex.fn != nil {
+		// a clause that followed its loop into a helper names a local of the original function:
+		// the helper's only non-parameter local of the same type stands for it
+		if !baselineLocalsLoaded {
+			baselineLocalsLoaded = true
+			if b, err := os.ReadFile(filepath.Join(verifDir(), "baseline", "locals.json")); err == nil {
+				json.Unmarshal(b, &baselineLocals)
+			}
+		}
+		typ := ""
+		for _, l := range baselineLocals[ex.fn.String()] {
+			if l.Name == name {
+				typ = l.Type
+			}
+		}
+		if typ == "" {
+			return nil
+		}
+		params := map[string]bool{}
+		for _, p := range fr.fn.Params {
+			params[p.Name()] = true
+		}
+		var cands []*ssa.Alloc
+		for _, a := range namedLocals(fr.fn) {
+			if !params[a.Comment] && types.TypeString(a.Type().Underlying().(*types.Pointer).Elem(), nil) == typ {
+				cands = append(cands, a)
+			}
+		}
+		if len(cands) == 1 {
+			ex.cx.note("local %s of %s is resolved to %s in the helper %s", name, ex.fn.Name(), cands[0].Comment, fr.fn.Name())
+			return cands[0]
+		}
+		return nil
+	}
 	if fr == nil || !fr.isTop {
 		return nil
 	}
